@@ -449,6 +449,10 @@ def run_check(pid, tier, seed, nruns=None, workers=None):
     budget = prop.budget[tier]
     if nruns is None:
         nruns = int(os.environ.get("VERIF_RUNS", "0")) or budget["runs"]
+    if nruns != budget["runs"] and not os.environ.get("VERIF_EVIDENCE_DIR"):
+        # an ad-hoc run with its own run count does not replace the evidence
+        # of the registered command
+        os.environ["VERIF_EVIDENCE_DIR"] = os.path.join(VERIF, "evidence", "adhoc")
     workers = workers or workers_default()
     sample_mod = 1 if tier == "quick" else 16
     os.environ["EGSIM_TIER"] = tier
